@@ -32,10 +32,13 @@ Definition model_obs (js : jstate) (r : result json) : obs5 :=
   {| o_ret := r; o_files := files (core js); o_dirs := dirs js;
      o_buffered := match depth (core js) with O => false | S _ => true end; o_stray := 0%N |}.
 
+(* keys 100 + f are the names of file f as spelled through a symlinked prefix *)
+Definition canon100 (k : N) : N := if (100 <=? k)%N then (k - 100)%N else k.
+
 Fixpoint jrun (frepr : fl -> str) (mg : json -> json -> json) (js : jstate) (prog : list jitem) : list obs5 :=
   match prog with
   | [] => []
-  | it :: r => let '(js1, x) := jstep frepr mg js it in model_obs js1 x :: jrun frepr mg js1 r
+  | it :: r => let '(js1, x) := jstep frepr mg canon100 js it in model_obs js1 x :: jrun frepr mg js1 r
   end.
 
 Definition run_C05 (c : case_C05) : list obs5 := jrun (ftab5 (c5_ftab c)) merge (init_js (c5_cap0 c)) (c5_prog c).
@@ -247,11 +250,49 @@ Fixpoint remove_while_buffered (frepr : fl -> str) (js : jstate) (prog : list ji
       (match it with
        | JRemove j =>
            match depth (core js), nlookup j (jobs js) with
-           | S _, Some (f, _) => match nlookup f (buf (core js)) with Some _ => true | None => false end
+           | S _, Some (k, _) =>
+               (* an entry under either spelling of the file *)
+               existsb (fun e => N.eqb (canon100 (fst e)) (canon100 k)) (buf (core js))
            | _, _ => false
            end
        | _ => false
-       end) || remove_while_buffered frepr (fst (jstep frepr merge js it)) r
+       end) || remove_while_buffered frepr (fst (jstep frepr merge canon100 js it)) r
+  end.
+
+(* ---- known finding 4: inside one outermost buffered block the same document is used (at least one use being a
+        modification) through two Job/Project objects whose project paths differ by a symlinked prefix: the file
+        names differ as strings, the buffer holds two entries for one file, the second flush finds the file
+        changed (MetadataError): BufferedError on exit and one object's writes are lost.  Purely over the input:
+        [jobs] maps an object to (file, reached through the symlink?) ---- *)
+Fixpoint symlink_shared (jobs : list (N * (N * bool))) (d : nat) (acc : list (N * (bool * bool * bool))) (prog : list jitem) : bool :=
+  match prog with
+  | [] => false
+  | it :: r =>
+      match it with
+      | JOpen j f prov => symlink_shared (nset j (f, N.eqb prov prov_symlink) jobs) d acc r
+      | JRekey j f' =>
+          match nlookup j jobs with
+          | Some (_, a) => symlink_shared (nset j (f', a) jobs) d acc r
+          | None => symlink_shared jobs d acc r
+          end
+      | JEnter _ => symlink_shared jobs (S d) acc r
+      | JExit => match d with
+                 | O => symlink_shared jobs d acc r
+                 | S O => symlink_shared jobs O [] r
+                 | S d' => symlink_shared jobs d' acc r
+                 end
+      | JOp j _ op =>
+          match d, nlookup j jobs with
+          | S _, Some (f, a) =>
+              let '(p, s, w) := match nlookup f acc with Some x => x | None => (false, false, false) end in
+              let p' := p || negb a in
+              let s' := s || a in
+              let w' := w || negb (is_read op) in
+              (p' && s' && w') || symlink_shared jobs d (nset f (p', s', w') acc) r
+          | _, _ => symlink_shared jobs d acc r
+          end
+      | _ => symlink_shared jobs d acc r
+      end
   end.
 
 (* the dropped collection's clear() can also be what puts the document into the buffer (it was opened before the
@@ -268,7 +309,8 @@ Definition predicts_buffered_error (c : case_C05) : bool :=
   existsb (fun o => match o_ret o with Err ERuntimeError => true | _ => false end) (run_C05 c).
 
 Definition classify_C05 (c : case_C05) : N :=
-  if (remove_in_block 0 (c5_prog c) && predicts_buffered_error c) || remove_while_buffered (ftab5 (c5_ftab c)) (init_js (c5_cap0 c)) (c5_prog c) then 3%N
+  if symlink_shared [] 0 [] (c5_prog c) then 4%N
+  else if (remove_in_block 0 (c5_prog c) && predicts_buffered_error c) || remove_while_buffered (ftab5 (c5_ftab c)) (init_js (c5_cap0 c)) (c5_prog c) then 3%N
   else if existsb obs_marked (run_marked c) then 2%N
   else if shared_in_block [] 0 [] (c5_prog c) then 1%N else 0%N.
 
@@ -293,7 +335,7 @@ Definition first_diff (c : case_C05) : option (N * obs5) := first_diff_aux (run_
 
 Fixpoint jstate_after (frepr : fl -> str) (js : jstate) (prog : list jitem) (n : nat) : jstate :=
   match n, prog with
-  | S n', it :: r => jstate_after frepr (fst (jstep frepr merge js it)) r n'
+  | S n', it :: r => jstate_after frepr (fst (jstep frepr merge canon100 js it)) r n'
   | _, _ => js
   end.
 Definition state_after (c : case_C05) (n : nat) : jstate :=
